@@ -22,7 +22,7 @@ from ..explore import Stats, explore_parallel
 from ..lifecycle import LifeHarness, LifeWorld, Oracle
 from ..vloop import HarnessError
 
-ATOMS_PLAIN = ("H", "C", "BV", "BP", "DR", "DRESP", "ST", "DI", "BAD", "PRE", "ENC")
+ATOMS_PLAIN = ("H", "C", "BV", "BP", "DR", "DRESP", "ST", "DI", "BAD", "PRE", "ENC", "ENC1")
 ATOMS_NOISE = ("NH", "NHE", "NHELLO", "H", "C", "DR", "DI", "BAD", "PRE", "TAMPER")
 PAIRS = (("ENC", "ST"), ("C", "H"), ("H", "BP"), ("DI", "DI"), ("DI", "DR"), ("DRESP", "DRESP"), ("H", "H"))
 
@@ -110,7 +110,7 @@ def factory(noise: bool, seed: str, addresses: tuple[str, ...]) -> LifeHarness:
 # first-cause differential sweep
 # ------------------------------------------------------------------------------------------------------
 F1_CAUSES: tuple[tuple[str, ...], ...] = tuple((x,) for x in (
-    "c:ENC", "c:PRE", "c:BAD", "c:BV", "c:BP", "c:DR", "c:TAMPER", "c:NHE", "eof", "rst", "force", "time", "tcp:err",
+    "c:ENC", "c:ENC1", "c:PRE", "c:BAD", "c:BV", "c:BP", "c:DR", "c:TAMPER", "c:NHE", "eof", "rst", "force", "time", "tcp:err",
     "tcp:okrst", "dns:fail", "cancel:start", "cancel:finish", "cancel:req")) + (("disc", "time"),)
 F2_EVENTS = ("eof", "rst", "force", "disc", "time", "c:BAD", "c:PRE", "c:DR", "c:ST", "c:ENC", "cancel:start", "cancel:finish",
              "cancel:req", "wf:sync", "tcp:err", "tcp:ok")
@@ -131,6 +131,7 @@ DIFF_SEEDS = (
 # connect-phase or request-response call that is pending when the cause takes effect.
 NAMED = {
     "c:ENC": "RequiresEncryptionAPIError",
+    "c:ENC1": "RequiresEncryptionAPIError",  # the marker byte alone decides; what follows it (or never arrives) does not matter
     "c:PRE": "ProtocolAPIError",
     "c:BAD": "ProtocolAPIError",
     "c:TAMPER": "InvalidEncryptionKeyAPIError",
@@ -186,6 +187,10 @@ def _diff_job(args: tuple[Any, ...]) -> dict[str, Any]:
     # (judged right after F1 was processed, before any time passes)
     fatal = all(c != "pending" for c in base["after_first"].values())
     if not fatal:
+        if name in NAMED and name != "disc+time" and any(n in ("finish", "req") for n in base["after_first"]):
+            # a cause the property statements name is fatal the moment it is processed
+            out["viol"].append({"clause": f"C09:first-cause:{name} was processed, but the operations waiting at that moment are still waiting "
+                                          f"({base['after_first']}); expected them to end with {NAMED[name]}", "labels": f1, "n_first": nf, "log": base["log"]})
         return out
     if name in NAMED:
         for n, c in base["classes"].items():
